@@ -13,7 +13,7 @@ import sys
 TOK = re.compile(
     r"""\s*(?:
       (?P<rawstr>b?r(\#*)"(?s:.*?)"\2)
-    | (?P<str>b?"(?:[^"\\]|\\.)*")
+    | (?P<str>b?"(?:[^"\\]|\\[\s\S])*")
     | (?P<chr>b?'(?:[^'\\]|\\.[^']*)')
     | (?P<punct>[(){}\[\],])
     | (?P<colon>:(?!:))
